@@ -135,7 +135,7 @@ func mutateGrammar(r *rng, src []byte) []byte {
 		if len(s) == 0 {
 			break
 		}
-		switch r.intn(9) {
+		switch r.intn(11) {
 		case 0: // delete a line
 			lines := strings.Split(s, "\n")
 			i := r.intn(len(lines))
@@ -160,7 +160,7 @@ func mutateGrammar(r *rng, src []byte) []byte {
 			s = s[:i] + s[i+1:]
 		case 4: // insert a structural byte
 			i := r.intn(len(s) + 1)
-			s = s[:i] + r.pick([]string{"{", "}", "(", ")", "[", "]", "\"", "'", "/", "*", "+", "?", "&", "!", "%{x}", "//{x} 'r'", "#{", ":", "<-", "\\", "\x00", "\xff", "i", "^"}) + s[i:]
+			s = s[:i] + r.pick([]string{"{", "}", "(", ")", "[", "]", "\"", "'", "/", "*", "+", "?", "&", "!", "%{x}", "//{x} 'r'", "#{", ":", "<-", "\\", "\x00", "\xff", "i", "^", "[\\p{L]", "[\\pX]", "[\\p{Nope}]", "[a-", "[z-a]", "\\u12", "\\777", "\"\\x\"", "[\\", "`", "/*", "//"}) + s[i:]
 		case 5: // swap two bytes
 			if len(s) > 1 {
 				i := r.intn(len(s) - 1)
@@ -174,6 +174,34 @@ func mutateGrammar(r *rng, src []byte) []byte {
 			s += r.pick([]string{"\nXx <- 'x' %{e} //{e} 'y'\n", "\nXx <- Yy 'x'\n", "\nXx <- Xx 'x' / 'y'\n", "\nXx <- &Xx 'x'\n", "\nXx <- ('a' / 'b' / [c-d] / 'e'i)* !.\n", "\nXx <- l:'a' l:'b' { return nil, nil }\n"})
 		case 8: // replace a literal quote style
 			s = strings.Replace(s, "\"", "`", 1)
+		case 9, 10: // replace a terminal by a lexically tricky one
+			toks := []string{`[\p{L]`, `[\p{L} ]`, `[\pL\pN]`, `[\p{Latin}a-z]i`, `[\p{Nope}]`, `[\pX]`, `[^]`, `[]`, `[\]]`, `[\-a]`, `[a\-]`, `[z-a]`, `[a-]`, `[\x41-\x5a]`, `[\u00e9]`, `[\U0001F600]`, `[\101]`, `'\''`, `'\"'`, "\"\\u00e9\"", "\"\\xff\"", "\"\\uD800\"", "\"\\q\"", "`raw\\n`", "`raw`i", `""`, `''i`, `"a"i`, `.`, `'\777'`, `'\08'`, `[\08]`, `[\p{`, `[\p`, `"\u12"`}
+			i := strings.IndexAny(s, "'\"[")
+			if i < 0 || r.chance(1, 3) {
+				i = r.intn(len(s) + 1)
+				s = s[:i] + " " + r.pick(toks) + " " + s[i:]
+			} else {
+				// find the n-th terminal start
+				var starts []int
+				for j := 0; j < len(s); j++ {
+					if s[j] == '\'' || s[j] == '"' || s[j] == '[' {
+						starts = append(starts, j)
+					}
+				}
+				i = starts[r.intn(len(starts))]
+				j := i + 1
+				close := s[i]
+				if close == '[' {
+					close = ']'
+				}
+				for j < len(s) && s[j] != close && s[j] != '\n' {
+					j++
+				}
+				if j < len(s) {
+					j++
+				}
+				s = s[:i] + r.pick(toks) + s[j:]
+			}
 		}
 	}
 	return []byte(s)
